@@ -83,6 +83,8 @@ type genCtx struct {
 	cancun    bool
 	noCalls   bool
 	depth     int
+	noIntro   bool // C15: no code introspection, no CREATE2, no raw bytes
+	noMcopy   bool
 }
 
 type opAvail struct {
@@ -101,6 +103,16 @@ var envOps = []opAvail{
 	{"RETURNDATASIZE", "Byzantium"}, {"COINBASE", ""}, {"TIMESTAMP", ""}, {"NUMBER", ""}, {"DIFFICULTY", ""}, {"GASLIMIT", ""},
 	{"CHAINID", "Istanbul"}, {"SELFBALANCE", "Istanbul"}, {"BASEFEE", "London"}, {"PC", ""}, {"MSIZE", ""}, {"GAS", ""}, {"PUSH0", "Shanghai"},
 }
+
+var envOpsNoCode = func() []opAvail {
+	var out []opAvail
+	for _, o := range envOps {
+		if o.name != "CODESIZE" && o.name != "PC" {
+			out = append(out, o)
+		}
+	}
+	return out
+}()
 
 func (g *genCtx) ok(o opAvail, r *RNG) bool {
 	if o.from == "" || forkAtLeast(g.fork, o.from) {
@@ -270,7 +282,7 @@ func (g *genCtx) genInit(r *RNG, depth int) *Program {
 
 func (g *genCtx) genCreate(r *RNG, p *Program, depth int) Macro {
 	op := "CREATE"
-	if (forkAtLeast(g.fork, "Constantinople") || (!g.strictOps && r.P(1, 20))) && r.Bool() {
+	if !g.noIntro && (forkAtLeast(g.fork, "Constantinople") || (!g.strictOps && r.P(1, 20))) && r.Bool() {
 		op = "CREATE2"
 	}
 	p.D = append(p.D, DataBlob{Prog: g.genInit(r, depth)})
@@ -294,6 +306,21 @@ var curProg *Program
 
 func (g *genCtx) genMacro(r *RNG, depth int) []Macro {
 	w := r.Intn(100)
+	if g.noIntro {
+		// no code introspection and no raw bytes: the C15 opcode transliteration must stay unobservable
+		if (w >= 55 && w < 62) || w >= 97 {
+			w = 91 + r.Intn(3)
+		}
+		if w >= 22 && w < 30 {
+			return []Macro{{K: "op", Op: g.pickOp(r, envOpsNoCode), Dst: genDst(r)}}
+		}
+		if w >= 91 && w < 94 && r.P(2, 3) {
+			if r.Bool() {
+				return []Macro{{K: "op", Op: "TSTORE", A: []string{genSlot(r), genVal(r)}}}
+			}
+			return []Macro{{K: "op", Op: "TLOAD", A: []string{genSlot(r)}, Dst: genDst(r)}}
+		}
+	}
 	switch {
 	case w < 22:
 		op := g.pickOp(r, arithOps)
@@ -378,7 +405,9 @@ func (g *genCtx) genMacro(r *RNG, depth int) []Macro {
 		}
 		return []Macro{g.genCall(r)}
 	case w < 83:
-		if g.noCalls || depth > 2 {
+		if g.noCalls || depth > 2 || (g.noIntro && g.noMcopy) {
+			// (tstore profile: init code would be copied from code into memory, making the
+			// transliterated bytes observable)
 			return []Macro{{K: "op", Op: "NOT", A: []string{genVal(r)}, Dst: genDst(r)}}
 		}
 		return []Macro{g.genCreate(r, curProg, depth)}
@@ -402,7 +431,11 @@ func (g *genCtx) genMacro(r *RNG, depth int) []Macro {
 		return []Macro{{K: "loop", N: 1 + r.Intn(4), Body: body}}
 	case w < 94:
 		if g.cancun {
-			switch r.Intn(3) {
+			k := 3
+			if g.noMcopy {
+				k = 2
+			}
+			switch r.Intn(k) {
 			case 0:
 				return []Macro{{K: "op", Op: "TSTORE", A: []string{genSlot(r), genVal(r)}}}
 			case 1:
